@@ -220,7 +220,9 @@ def run_check(mod, tier: str, verif_seed: int, *, jobs: int = 16, runs: int | No
     out = lambda *a: print(*a, flush=True)  # noqa: E731
     budget = Budget(float(os.environ.get("VERIF_BUDGET_S", mod.BUDGET[tier])))
     cases = mod.gen_cases(tier, verif_seed, runs)
-    out(f"[{prop}] VERIF_SEED={verif_seed} tier={tier} cases={len(cases)} jobs={jobs}")
+    import yaw
+
+    out(f"[{prop}] VERIF_SEED={verif_seed} tier={tier} cases={len(cases)} jobs={jobs} yaw={os.path.dirname(yaw.__file__)}")
     results = run_parallel(
         cases,
         mod.run_case,
